@@ -41,7 +41,7 @@ func register(e *engine) { engines[e.name] = e }
 // work grow with the EXPANDED size of a tree (C05: "time proportional to the number of distinct objects")
 // would otherwise stall a shard for hours on a generated git bomb. After one timeout the rest of the shard
 // is skipped (the stuck goroutine cannot be stopped); one failing input is enough.
-var watchdogEngines = map[string]time.Duration{"graph": 60 * time.Second}
+var watchdogEngines = map[string]time.Duration{"graph": 60 * time.Second, "paths": 60 * time.Second}
 var shardPoisoned bool
 
 func safeExec(e *engine, in []string) (res []string) {
